@@ -242,6 +242,11 @@ func (x *exec) callCommonT(st *pstate, cc *ssa.CallCommon, args []Val, argTypes 
 		callee = fv.Fn
 		bindings = fv.Bindings
 	}
+	if callee == nil && x.selfThroughCapture(cc.Value) {
+		// `var f func(..); f = func(..) { ... f(..) ... }`: the recursive call of a closure through the
+		// variable it was assigned to
+		callee = x.fn
+	}
 	if callee == nil {
 		return x.dynamicCall(st, cc, args, argTypes, in), false
 	}
@@ -259,6 +264,75 @@ func (x *exec) callCommonT(st *pstate, cc *ssa.CallCommon, args []Val, argTypes 
 		unsupp("call of closure %s with captured variables", callee.Name())
 	}
 	return x.applyContract(st, c, callee, allArgs, allTypes, in), false
+}
+
+// selfThroughCapture: v is a load of a captured variable of function type that the enclosing
+// function assigns exactly once, namely with the closure under verification. Checked on the SSA of
+// the enclosing function: the variable's cell is only stored to by that one assignment, loaded, and
+// captured.
+func (x *exec) selfThroughCapture(v ssa.Value) bool {
+	u, ok := v.(*ssa.UnOp)
+	if !ok || u.Op != token.MUL {
+		return false
+	}
+	fv, ok := u.X.(*ssa.FreeVar)
+	if !ok {
+		return false
+	}
+	parent := x.fn.Parent()
+	if parent == nil {
+		return false
+	}
+	idx := -1
+	for i, f := range x.fn.FreeVars {
+		if f == fv {
+			idx = i
+		}
+	}
+	if idx < 0 {
+		return false
+	}
+	var cell *ssa.Alloc
+	for _, b := range parent.Blocks {
+		for _, in := range b.Instrs {
+			if mc, ok := in.(*ssa.MakeClosure); ok && mc.Fn == ssa.Value(x.fn) && idx < len(mc.Bindings) {
+				a, ok := mc.Bindings[idx].(*ssa.Alloc)
+				if !ok || (cell != nil && cell != a) {
+					return false
+				}
+				cell = a
+			}
+		}
+	}
+	if cell == nil {
+		return false
+	}
+	stores := 0
+	for _, ref := range *cell.Referrers() {
+		switch r := ref.(type) {
+		case *ssa.Store:
+			if r.Addr != ssa.Value(cell) {
+				return false // the address itself is stored somewhere
+			}
+			mc, ok := r.Val.(*ssa.MakeClosure)
+			if !ok || mc.Fn != ssa.Value(x.fn) {
+				return false
+			}
+			stores++
+		case *ssa.MakeClosure:
+			if r.Fn != ssa.Value(x.fn) {
+				return false // captured by another closure, which might assign it
+			}
+		case *ssa.UnOp, *ssa.DebugRef:
+		default:
+			return false
+		}
+	}
+	if stores != 1 {
+		return false
+	}
+	x.p.Assumptions["a closure that calls itself through the variable it is assigned to ("+x.fn.Name()+") is treated as recursive: the variable is assigned exactly once in the enclosing function (checked on its SSA form)"] = true
+	return true
 }
 
 // target is something an assigns clause names.
